@@ -48,6 +48,7 @@ pub trait VNullable { spec fn null_spec() -> Value; fn null() -> (r: Value) ensu
 pub trait VValueType: Sized {
     spec fn try_from_spec(v: Value) -> Result<Self, ValueTypeErr>;
     fn try_from(v: Value) -> (r: Result<Self, ValueTypeErr>) ensures r == Self::try_from_spec(v);
+@@UNWRAP@@
 }
 pub trait Laws: VFrom + VNullable + VValueType {
     proof fn law(x: Self, v: Value)
@@ -232,7 +233,17 @@ def build(u):
     vs = variants_of(vtext)
     u.spec(VEC_SPEC, "value::vector-spec", props=P18)
     u.spec(gen_specs(vs), "value::generated-specs(tag, is_null, eqv, hash_events)", props=P12 + P18)
-    u.spec(TRAITS, "value::traits+laws", props=P12)
+    t_a, t_b = TRAITS.split("@@UNWRAP@@\n")
+    u.spec("""// Result::unwrap (std): returns the Ok payload and PANICS on Err (= a call that returns only for Ok)
+#[verifier::external_body]
+fn vunwrap_res<T, E>(r: Result<T, E>) -> (x: T) ensures r == Ok::<T, E>(x) { unimplemented!() }
+""", "value::vunwrap_res", props=P12)
+    u.spec(t_a, "value::traits+laws(1)", props=P12)
+    # the trait's default `unwrap` (extracted): extracts, panicking on a mismatch
+    u.fn(F, "trait ValueType", "unwrap", ret="r", props=P12, key="ValueType::unwrap[default]", vpath="VValueType::unwrap",
+         rules=[make_r_sub("R-strfn", r"Self::try_from\(v\)\.unwrap\(\)", "vunwrap_res(Self::try_from(v))")],
+         spec="ensures\n    // returns only if the value extracts as Self, and then that result\n    Self::try_from_spec(v) == Ok::<Self, ValueTypeErr>(r),")
+    u.spec(t_b, "value::traits+laws(2)", props=P12)
 
     # ---- R-macro: expand every invocation of the two conversion macros found in src/value.rs -----------------------------------
     insts = []
@@ -419,6 +430,71 @@ pub open spec fn is_row(r: ValueTuple, vals: Seq<Value>) -> bool { r is Many && 
         u.chunks.append(("    fn into_value_tuple(self) -> (r: ValueTuple)\n", dict(meta, kind="header")))
         u.chunks.append(("    " + fbody + "\n}\n", dict(meta)))
         u.functions.append({"item": meta["key"], "file": F, "line": line, "vpath": "into_value_tuple", "sha256": hashlib.sha256(text.encode()).hexdigest(), "rules": ctx.apps, "kind": "fn",
+                            "has_contract": True, "props": PT, "no_canary": True})
+    # ---- FromValueTuple: extracting a row as a Rust tuple: the SAME arity or a refusal, component k from position k ----------------------------
+    u.spec("""pub trait FromValueTuple: Sized {
+    // r is what the row t extracts to
+    spec fn fvt_ok(t: ValueTuple, r: Self) -> bool;
+    fn from_value_tuple<Z: IntoValueTuple>(i: Z) -> (r: Self) ensures exists|t: ValueTuple| #[trigger] i.vt_ok(t) && Self::fvt_ok(t, r);
+}
+impl Value {
+    // Value::unwrap::<T>() (src/value.rs: `T::unwrap(self)`)
+    fn unwrap<T: VValueType>(self) -> (r: T) ensures T::try_from_spec(self) == Ok::<T, ValueTypeErr>(r) { T::unwrap(self) }
+}
+// panic!(..): a call after which false holds (a refusal is `the function returns only if ..`)
+#[verifier::external_body]
+fn vpanic_t() ensures false { unimplemented!() }
+""", "value::FromValueTuple-trait", props=PT)
+    # the hand-written impls for one value, pairs and triples (their own variants: any other variant is refused)
+    hand_from = [("impl<V> FromValueTuple for V where V: Into<Value> + ValueType,", "impl<V> FromValueTuple for V where V: VValueType,", "t is One && V::try_from_spec(t->One_0) == Ok::<V, ValueTypeErr>(r)"),
+                 ("impl<V, W> FromValueTuple for (V, W) where V: Into<Value> + ValueType, W: Into<Value> + ValueType,", "impl<V, W> FromValueTuple for (V, W) where V: VValueType, W: VValueType,",
+                  "t is Two && V::try_from_spec(t->Two_0) == Ok::<V, ValueTypeErr>(r.0) && W::try_from_spec(t->Two_1) == Ok::<W, ValueTypeErr>(r.1)"),
+                 ("impl<U, V, W> FromValueTuple for (U, V, W) where U: Into<Value> + ValueType, V: Into<Value> + ValueType, W: Into<Value> + ValueType,", "impl<U, V, W> FromValueTuple for (U, V, W) where U: VValueType, V: VValueType, W: VValueType,",
+                  "t is Three && U::try_from_spec(t->Three_0) == Ok::<U, ValueTypeErr>(r.0) && V::try_from_spec(t->Three_1) == Ok::<V, ValueTypeErr>(r.1) && W::try_from_spec(t->Three_2) == Ok::<W, ValueTypeErr>(r.2)")]
+    for hdr, vhdr, ok in hand_from:
+        u.emit("%s {\n    open spec fn fvt_ok(t: ValueTuple, r: Self) -> bool { %s }\n" % (vhdr, ok), kind="spec", key="value::%s" % hdr, props=PT)
+        u.fn(F, hdr, "from_value_tuple", props=PT, key="%s::from_value_tuple" % hdr, vpath="%s::from_value_tuple" % re.sub(r"impl(<[^>]*>)? ", "", hdr), no_canary=True, ret="r",
+             rules=[make_r_sub("R-generic", r"fn from_value_tuple<I>\(i: I\) -> Self\s+where\s+I: IntoValueTuple,", "fn from_value_tuple<Z: IntoValueTuple>(i: Z) -> Self"),
+                    make_r_sub("R-panic", r'panic!\("not ValueTuple::(One|Two|Three)"\)', "({ vpanic_t(); unreached() })", min_count=0)])
+        u.emit("}\n")
+    m = re.search(r"macro_rules!\s+impl_from_value_tuple\s*\{", src)
+    if not m:
+        raise rl.LostAnchor("macro_rules! impl_from_value_tuple not found")
+    toks = rl.code_toks(rl.lex(src[m.end() - 1:]))
+    mtext = src[m.end():m.end() - 1 + toks[rl.match_close(toks, 0)].start]
+    if rl.norm_ws(mtext.split("=>")[0]) != "( $len:expr, $($T:ident),+ $(,)? )":
+        raise rl.Unsupported("impl_from_value_tuple!: the macro pattern is no longer `$len:expr, $($T:ident),+`")
+    mb = mtext[mtext.index("=>") + 2:].strip()
+    mb = mb[1:mb.rindex("}")]
+    for line, args in invocations(src, "impl_from_value_tuple"):
+        ln, ts = args[0].strip(), [a.strip() for a in args[1:] if a.strip()]
+        if not re.match(r"^\d+$", ln) or not all(re.match(r"^[A-Z][A-Za-z0-9]*$", t) for t in ts):
+            raise rl.Unsupported("impl_from_value_tuple!(%s)" % ", ".join(args))
+        n = len(ts)
+        text = mb.replace("$($T),+", ", ".join(ts)).replace("$($T: Into<Value> + ValueType),+", ", ".join("%s: VValueType" % t for t in ts))
+        text = text.replace("$(<$T as ValueType>::unwrap(iter.next().unwrap())),+", ", ".join("<%s as VValueType>::unwrap(iter.next().unwrap())" % t for t in ts))
+        text = text.replace("$len", ln)
+        if "$" in text:
+            raise rl.Unsupported("impl_from_value_tuple!: unexpanded macro variable in the transcriber")
+        text = re.sub(r'panic!\("not ValueTuple::Many with length of \{\}", %s\)' % ln, "({ vpanic_t(); unreached() })", text)
+        text = text.replace("fn from_value_tuple<Z>(i: Z) -> Self\n            where\n                Z: IntoValueTuple,", "fn from_value_tuple<Z: IntoValueTuple>(i: Z) -> (r: Self)")
+        hdr = rl.norm_ws(text[:text.index("{")])
+        fn_m = re.search(r"fn from_value_tuple<Z: IntoValueTuple>\(i: Z\) -> \(r: Self\)\s*\{", text)
+        if not fn_m:
+            raise rl.LostAnchor("impl_from_value_tuple!: fn from_value_tuple not found in the transcriber")
+        ft = rl.code_toks(rl.lex(text[fn_m.end() - 1:]))
+        fbody = text[fn_m.end() - 1: fn_m.end() - 1 + ft[rl.match_close(ft, 0)].end]
+        ctx = Ctx(u, "impl_from_value_tuple!(%d)" % n)
+        ctx.app("R-macro", "impl_from_value_tuple!(%s) at line %d" % (", ".join(args), line), "the impl for a tuple of %d components" % n)
+        # the oracle: written from the ARITY alone
+        ok = " && ".join(["t is Many", "t->Many_0@.len() == %d" % n] + ["%s::try_from_spec(t->Many_0@[%d]) == Ok::<%s, ValueTypeErr>(r.%d)" % (ts[k], k, ts[k], k) for k in range(n)])
+        import hashlib
+        meta = {"kind": "code", "key": "impl_from_value_tuple!(%d)" % n, "props": PT, "src": F, "src_line": line, "gid": 310000 + n, "fname": "from_value_tuple", "canary_ok": False}
+        u.emit("%s {\n    // a row of EXACTLY %d values (anything else is refused), component k extracted from position k\n    open spec fn fvt_ok(t: ValueTuple, r: Self) -> bool { %s }\n"
+               % (hdr, n, ok), kind="spec", key="value::impl_from_value_tuple!(%d)" % n, props=PT)
+        u.chunks.append(("    fn from_value_tuple<Z: IntoValueTuple>(i: Z) -> (r: Self)\n", dict(meta, kind="header")))
+        u.chunks.append(("    " + fbody + "\n}\n", dict(meta)))
+        u.functions.append({"item": meta["key"], "file": F, "line": line, "vpath": "from_value_tuple", "sha256": hashlib.sha256(text.encode()).hexdigest(), "rules": ctx.apps, "kind": "fn",
                             "has_contract": True, "props": PT, "no_canary": True})
 
 
